@@ -24,7 +24,7 @@ TAG_SWARM = "C18/swarm"
 
 TIERS = {
     "quick": dict(enum_scenarios=16, stdio_sites=6, swarm=400, real_lli=12, crash=120),
-    "thorough": dict(enum_scenarios=120, stdio_sites=40, swarm=80000, real_lli=300, crash=8000, real_clang=150, render=1800, verbose_large=300, overlap=600, rerun=1500),
+    "thorough": dict(enum_scenarios=120, stdio_sites=40, swarm=80000, real_lli=300, crash=8000, real_clang=150, render=1800, verbose_large=300, overlap=600, rerun=1500, stale_binary=300),
 }
 
 ESC = b"\x1b"
@@ -988,6 +988,31 @@ def _rerun_job(args):
     return {"violations": viol, "runs": 3}
 
 
+def _stale_binary_job(args):
+    """A build that succeeds and leaves its executable, then the same build with a
+    backend that fails (exit code, signal) without touching the file: the second
+    run is a failure, whatever is lying at the output path."""
+    seed, i = args
+    rng = rng_for(seed, "C18/stale_binary", i)
+    sc = make_scenario(rng, "build", rng.choice(["valid_single", "valid_multi"]),
+                       {"out_dir": rng.choice(["fresh", "absent", "nested"]), "script": {"read": "all", "exit": 0, "produce": 1},
+                        "order": "parent_first", "config": "none", "cell": rng.choice([(0, 0, 0), (1, 0, 0), (0, 1, 0)]), "wasm": False, "silent": False, "verbose": False})
+    sc["name"] = "stale_binary%d" % i
+    root = os.path.join(work_root(), "C18", "y%d" % i)
+    wd = os.path.join(root, "run")
+    first = exec_scenario(sc, wd, keep=True)
+    second = dict(sc)
+    second["script"] = rng.choice([{"read": "all", "exit": 3}, {"read": "all", "signal": 9}, {"read": "10", "exit": 1}])
+    again = exec_scenario(second, wd, restart=True)
+    viol = []
+    if first["rc"] != 0:
+        viol.append(("false_failure", "the first build failed: %s %r" % (first["status"], first["err"][-200:])))
+    elif again["rc"] == 0 and not again["sig"]:
+        viol.append(("silent_failure", "exit 0 although the backend failed (%s); the executable of the earlier build is still lying there" % second["script"]))
+    shutil.rmtree(root, ignore_errors=True)
+    return {"violations": [{"class": c, "detail": d, "scenario": sc_json(sc), "plan": [], "fault": "stale_binary", "index": i, "seed": seed} for c, d in viol], "runs": 2}
+
+
 def rerun_verdict(sc, root):
     census = run_census(sc, os.path.join(root, "census"))
     wd = os.path.join(root, "run")
@@ -1359,7 +1384,7 @@ def minimise(v):
 
 def _min_job(v):
     set_min_budget()
-    if v.get("fault") in ("overlap", "rerun"):
+    if v.get("fault") in ("overlap", "rerun", "stale_binary"):
         # a pair of invocations (under one fixed schedule / one after the other): replayed as a pair
         m, ok = v, False
     else:
@@ -1371,6 +1396,8 @@ def _min_job(v):
               "argv": " ".join(["penne"] + argv_of(sc_from_json(sc))[1:])}
     if v.get("fault") == "overlap":
         record["overlap"] = {"seed": v["seed"], "index": v["index"], "scenarios": v["overlap"]}
+    if v.get("fault") == "stale_binary":
+        record["stale_binary"] = {"seed": v["seed"], "index": v["index"]}
     summary = "%s: %s\n  scenario %s, argv: %s\n  fault plan: %s" % (m["class"], m["detail"][:400], sc.get("name"), record["argv"], m["plan"])
     return Finding(PROP, m["class"], record, signature=m["class"], summary=summary)
 
@@ -1462,6 +1489,9 @@ def run(tier, seed):
         runs += res["runs"]
         rerun_pairs += 1
         raw.extend(res["violations"])
+    for res in parallel_map(_stale_binary_job, [(seed, i) for i in range(cfg.get("stale_binary", 12))]):
+        runs += res["runs"]
+        raw.extend(res["violations"])
     overlap_runs = overlap_reached = 0
     for res in parallel_map(_overlap_job, [(seed, i) for i in range(cfg.get("overlap", 24))]):
         runs += res["runs"]
@@ -1528,8 +1558,9 @@ def run(tier, seed):
 
 def replay(record):
     disable_aslr()
-    if record.get("overlap"):
-        res = _overlap_job((record["overlap"]["seed"], record["overlap"]["index"]))
+    if record.get("overlap") or record.get("stale_binary"):
+        res = _overlap_job((record["overlap"]["seed"], record["overlap"]["index"])) if record.get("overlap") else \
+            _stale_binary_job((record["stale_binary"]["seed"], record["stale_binary"]["index"]))
         for v in res["violations"]:
             print("replay: %s: %s" % (v["class"], v["detail"][:400]))
         if any(v["class"] == record["observed"]["class"] for v in res["violations"]):
